@@ -6,9 +6,15 @@ boundary value of the token's type, replace by junk); ALL executions with 0 devi
 seeds) with 2; plus all token strings of length <= k over each format's token alphabets.
 
 Every case feeds the reader exactly as tt.py does (text mode UTF-8 for SRT/VTT/SCC, binary for STL, ElementTree.parse
-for TTML).  Every distinct returned document (deep fingerprint `fp_doc`) goes once through the downstream stage:
-snapshots at all significant times and midpoints, the LCD filter under two configurations, the SRT (2), WebVTT (8)
-and IMSC (4) writer configurations, and the read -> LCD -> write pipeline.
+for TTML).  Every distinct returned document shape (fp_doc with text nodes reduced to their class, see RULE) goes once
+per worker through the downstream stage: snapshots at all significant times and midpoints, the LCD filter under two
+configurations, the SRT (2), WebVTT (4 quick / 8 thorough) and IMSC (4) writer configurations, and the
+read -> LCD -> write pipeline.
+
+Oracle clauses: C18.reader.<format> (exception type outside {ParseError, ValueError, struct.error}, or None without an
+error record), C18.isd, C18.lcd, C18.writer.{srt,vtt,imsc}, C18.filtered.writer.{srt,vtt,imsc} (any exception);
+termination is the kernel's C18.timeout.  Generators (seeds, tokenisers, menus, alphabets) live in mc/c18gen.py;
+tools/c18_repro.py reproduces the listed findings without the kernel, tools/c18_make_known.py writes the list.
 """
 from __future__ import annotations
 
